@@ -4,6 +4,7 @@ import (
 	"fmt"
 	"runtime"
 	"runtime/debug"
+	"strings"
 	"time"
 	"unsafe"
 
@@ -75,7 +76,7 @@ func ReleaseJobs() []string {
 		out = append(out, "release/"+mk().name)
 	}
 	out = append(out, "bulk/unsigned[uint64]", "bulk/alpha[string]", "bulk/collation[string]")
-	return append(out, "spread/alpha[string]", "spread/collation[string]", "spread/collation[[]byte]", "spread/compound[u64,str]")
+	return append(out, "spread/alpha[string]", "spread/alpha[[]byte]", "spread/collation[string]", "spread/collation[[]byte]", "spread/compound[u64,str]")
 }
 
 func exploreRelease(job, tier string, res *Result) {
@@ -319,6 +320,19 @@ func exploreSpread(job, tier string, res *Result) {
 			t := art.NewAlphaSortedTree[string, int]()
 			return tr{func(k string) { t.Insert(k, 1) }, func(k string) bool { return t.Delete(k) }, func(k string) bool { _, ok := t.Search(k); return ok }, t}
 		}
+	case "spread/alpha[[]byte]":
+		mk = func() tr {
+			t := art.NewAlphaSortedTree[[]byte, int]()
+			// the key as a scanner hands it over: a short window into a large buffer, with all the spare capacity behind it
+			b := func(k string) []byte {
+				d := unsafe.StringData(k)
+				if len(k) > 64 {
+					return unsafe.Slice(d, len(k)) // the long probe is a string of its own, not a window into a page
+				}
+				return unsafe.Slice(d, len(k)+2048)[:len(k)]
+			}
+			return tr{func(k string) { t.Insert(b(k), 1) }, func(k string) bool { return t.Delete(b(k)) }, func(k string) bool { _, ok := t.Search(b(k)); return ok }, t}
+		}
 	case "spread/collation[string]":
 		mk = func() tr {
 			t := art.NewCollationSortedTree[string, int]()
@@ -348,7 +362,7 @@ func exploreSpread(job, tier string, res *Result) {
 			page[j] = '.'
 		}
 		k := fmt.Sprintf("field-%06d", i*7919%1000000)
-		off := (i * 131) % (spreadPage - len(k))
+		off := (i * 131) % (spreadPage - len(k) - 4096)
 		copy(page[off:], k)
 		s := string(page) // one allocation of page size; the key is a view into it
 		return s[off : off+len(k)]
@@ -357,6 +371,12 @@ func exploreSpread(job, tier string, res *Result) {
 		t := mk()
 		t.insert(cut(spreadKeys + 1))
 		t.delete(cut(spreadKeys + 1))
+		// one very long absent key is queried before anything is stored (whatever a tree sizes after the longest key it
+		// has SEEN must not be charged to every key it stores later); its own legitimate cost, e.g. a grown collation
+		// buffer, lies before the first measurement
+		long := strings.Repeat("q", 24<<10)
+		t.search(long)
+		t.delete(long)
 		before := liveHeap()
 		for i := 0; i < spreadKeys; i++ {
 			t.insert(cut(i))
